@@ -146,7 +146,7 @@ const char *shim_backend(void) {
     return "idnkit";
 #endif
 }
-void *shim_new(int poison) { eav_t *e = __real_malloc(sizeof *e); memset(e, poison, sizeof *e); return e; }
+void *shim_new(int poison) { eav_t *e = __real_malloc(sizeof *e); if (poison >= 0) memset(e, poison, sizeof *e); return e; }
 void shim_delete(void *o) { __real_free(o); }
 void shim_init(void *o) { g_track = 1; eav_init(o); g_track = 0; }
 void shim_free(void *o) { g_track = 1; eav_free(o); g_track = 0; }
